@@ -21,7 +21,7 @@ MANIFEST = dict(
          "one step + 1e-9. Exact read-back through CPython's real floats is NOT a theorem: it is closed by enumerating all 65 536 words "
          "x 2 units on the real accessor on every run (both write paths). Tie: translator + differential correspondence on the real "
          "GeckoTempStructAccessor (floats converted to exact Fractions, model rationals compared as num/den) and the real "
-         "GeckoWaterHeater on stub spas of shipped cfg/log pairs. Session 4: heater states keep the user setpoint (SetpointG) on the other side of the current temperature than the regulated target (RealSetPointG), so a heater reading the wrong word shows in real_target_temperature and in the operation ladder. The unit setting flips while every stored word stays unchanged, on the same live heater. Session 5: one heater object living across a history of writes and reports against a spa that applies each command and reports the word back (the same temperature again, a value truncating to the held word, a unit change right after it, writes in the other unit): after every step the heater presents the stored word in the current unit. Round 14: the set point through the real client path with the spa's report held back (change of mind).",
+         "GeckoWaterHeater on stub spas of shipped cfg/log pairs. Session 4: heater states keep the user setpoint (SetpointG) on the other side of the current temperature than the regulated target (RealSetPointG), so a heater reading the wrong word shows in real_target_temperature and in the operation ladder. The unit setting flips while every stored word stays unchanged, on the same live heater. Session 5: one heater object living across a history of writes and reports against a spa that applies each command and reports the word back (the same temperature again, a value truncating to the held word, a unit change right after it, writes in the other unit): after every step the heater presents the stored word in the current unit. Round 14: the set point through the real client path with the spa's report held back (change of mind). Round 15: the BLOCKING client's heater - setpoint written and written back before the spa's report; both commands reach the spa and the value written last is read back.",
     note="Trusted: Lean kernel; the translator (harness/gen_c14.py over py2lean; float literal -> exact value of the double, float op -> "
          "fl(...)); the correspondence harness. Assumed in float_bridge only: rounding is monotone with relative error <= 2^-52 in the "
          "range used (no underflow/overflow). int -> double conversion of a stored word is exact (< 2^53). A flag that exists but is off "
@@ -722,6 +722,7 @@ def run(ctx):
             if 0 <= i < len(lines):
                 ctx.sample({"op": lines[i][:100], "model": model[i][:100], "impl": str(expect[i])[:160]}, cap=8)
     ctx.cov["ladder_combinations"] = len(combos)
+    check_blocking_change_of_mind(ctx)
     ctx.cov["distinct_nontrivial"] = len(nontrivial) + len(combos)
     ctx.cov["rule"] = ("(a) ALL 65536 words x {C,F} on the real accessor (complete enumeration, see float_readback_enumeration); "
                        "(b) decimal writes as string / float / int forms: 0.01 (thorough 0.001) grid over 14-41 C and 58-105 F, the whole "
@@ -737,9 +738,35 @@ def run(ctx):
                         "a flag that exists but is off while the other flag does not exist: the temperatures decide (as the code reads)"]
 
 
+def check_blocking_change_of_mind(ctx, only=None):
+    """the BLOCKING client's heater (real start_connect handshake, stepped): the setpoint is written, and written back to the value shown
+    before, while the spa's report of the first write is still under way - the device must end with the value written last and the heater
+    read it back"""
+    import bsessions
+    from common import REPO
+    for f, tag in (("inYT-Pump1Hi-2020-12-13 11_19_35.snapshot", "SetpointG"), ("inYJ-All off-2020-12-18 11_24_09.snapshot", "SetpointG"),
+                   ("inYT-Pump1Hi-2020-12-13 11_19_35.snapshot", "UdP2")):
+        if only is not None and only != [f, tag]:
+            continue
+        r = bsessions.change_of_mind(str(REPO / "tests" / "snapshots" / f), tag)
+        ctx.count("evaluations")
+        ctx.hist("blocking_change_of_mind", "connected" if r.get("connected") else "not-connected")
+        if r.get("skipped"):
+            continue
+        bad = (not r.get("connected")) or r.get("errors") or r.get("commands") != 2 or r.get("client_reads") != r.get("want") or r.get("spa_raw") != r.get("client_raw")
+        if bad:
+            ctx.violation(f"blocking-client:written-back-before-the-report:{tag}", {"kind": "blocking-change-of-mind", "case": [f, tag]},
+                          "both writes reach the spa; the device and the client end with the value written last", r)
+
+
 # ----------------------------------------------------------------------------------------------------- replay
 def replay(inp):
     k = inp.get("kind")
+    if k == "blocking-change-of-mind":
+        from common import Ctx
+        c = Ctx("C14", "quick", 0)
+        check_blocking_change_of_mind(c, only=inp["case"])
+        return bool(c.violations), c.violations[0]["observed"] if c.violations else "the value written last"
     if k in ("value", "readback", "order-read"):
         spa = Spa(*REP)
         tag = find_writable_temp(spa)
